@@ -22,7 +22,7 @@ DD = "self.simulation.deadlock_detector"
 
 def check(ctx):
     P = ctx.program
-    iters = (0, 1, 2) if ctx.tier == "thorough" else (0, 1)
+    iters = (0, 1)
     views = family_views(P, "Node")
     hooks(ctx, P, views, iters)
     edges(ctx, P)
